@@ -743,20 +743,15 @@ def r17_9_standard_letters(ctx: Ctx) -> RuleResult:
     ip = M.cls("_InstantPatternParser", required=True)
     f = M.find_method(ip, "parse_pattern")
     rr.inst()
+    # the one-letter pattern is replaced by a pattern text constant: an assignment of a string constant to the pattern parameter
+    # (under `case "g"`, `if pattern == "g"`, or after an early `raise` for every other letter)
     texts = []
+    par = [a.arg for a in f.node.args.args if a.arg not in ("self", "cls")][0]
     for n in own_nodes(f.node):
-        if isinstance(n, ast.match_case) and isinstance(n.pattern, ast.MatchValue) and isinstance(n.pattern.value, ast.Constant) and n.pattern.value.value == "g":
-            for s in n.body:
-                if isinstance(s, ast.Assign):
-                    v = M.fold(s.value, ip, ip.mod)
-                    if isinstance(v, str):
-                        texts.append((v, s))
-        if isinstance(n, ast.If) and "'g'" in unparse(n.test):
-            for s in n.body:
-                if isinstance(s, ast.Assign):
-                    v = M.fold(s.value, ip, ip.mod)
-                    if isinstance(v, str):
-                        texts.append((v, s))
+        if isinstance(n, ast.Assign) and any(isinstance(t, ast.Name) and t.id == par for t in n.targets):
+            v = M.fold(n.value, ip, ip.mod)
+            if isinstance(v, str):
+                texts.append((v, n))
     if len(texts) != 1:
         raise AnalysisError(f"{f.qual}: expansion of the standard pattern 'g' not found")
     text, node = texts[0]
